@@ -105,7 +105,9 @@ func (s *Session) acceptsDataChannel(dc websocket.Conn) bool {
 	if !config.Auth() {
 		return true
 	}
-	return dc.Username() == s.username && dc.Path() == s.wsPath
+	// ... and only while that user may still pull the stream: a session that is
+	// already playing starts sending to the joiner at once
+	return dc.Username() == s.username && dc.Path() == s.wsPath && s.checkPermission()
 }
 
 // checkPermission validates, against the rights as saved now, that the user
@@ -115,7 +117,7 @@ func (s *Session) checkPermission() bool {
 		return true
 	}
 	u := auth.Get(s.username)
-	return u != nil && u.ValidatePermission(s.path, auth.PullRight)
+	return u != nil && u.ValidatePermission(s.wsPath, auth.PullRight)
 }
 
 // 设置rtp数据通道
